@@ -430,6 +430,17 @@ fn main() {
             }
             let Ok(req) = Request::new(&url, &src, ty) else { cs.stat("request_error"); continue };
             register_request(&req, &url, &src, ty);
+            if nonascii.is_some() && !url.is_ascii() {
+                // the model's tokenizer treats every byte of a non-ASCII LETTER as a word byte (all the
+                // non-ASCII characters of this family are letters): same tokens as the crate's
+                let low = adblock::request::verif::url_lower_cased(&req).to_string();
+                cs.stat("non_ascii_request_tokens");
+                cs.case(
+                    format!("list_eqb N.eqb (request_tokens seahash {}) {}", hxs(&low), clist(req.get_tokens(), |x| cn(*x))),
+                    json!({"fn": "request_tokens (URL with non-ASCII letters)", "url": url}),
+                    true,
+                );
+            }
             let matching: Vec<u64> = rules.iter().filter(|f| rule_matches(f, &req)).map(|f| f.id).collect();
             // a third of the queries go through the subset entry point (another engine matched before /
             // exceptions forced)
